@@ -1,6 +1,299 @@
-//! C20 — monitor not written yet.
-use crate::ctx::Ctx;
+//! C20 — a customer restored from storage at any step continues exactly as the original.
+//!
+//! Lock-step twin execution: track A is never stored; track B is replaced by
+//! decode(encode(state)) before every step (pass "every") or before a random subset of steps
+//! (pass "random"). Both tracks draw from identically seeded per-step RNGs and receive the same
+//! merchant reply bytes, injected bad replies included. Only A's messages go to the merchant; B's
+//! must be byte-identical.
+
+use crate::ctx::{guard, hex, Ctx};
+use crate::fixtures::{self, Merchant};
+use crate::props::c04::candidate_amounts;
+use crate::props::util::*;
+use crate::refs::ledger_apply;
+use crate::session::{amount, new_channel_id, Sess, Stage};
+use crate::srng::ScriptRng;
+use crate::wire::{enc, rand_g1};
+use rand_core::RngCore;
+use serde_json::json;
+
+const MAXB: u64 = i64::MAX as u64;
+
+struct Twin {
+    a: Sess,
+    b: Sess,
+    restore_every: bool,
+    restores: usize,
+    steps: usize,
+    trail: Vec<String>,
+    name: String,
+}
+
+fn seed_of(rng: &mut impl RngCore) -> [u8; 32] {
+    let mut s = [0u8; 32];
+    rng.fill_bytes(&mut s);
+    s
+}
+
+impl Twin {
+    /// store-and-restore point for track B
+    fn maybe_restore(&mut self, c: &mut Ctx, rng: &mut impl RngCore, at: &str) -> bool {
+        self.steps += 1;
+        if self.restore_every || rng.next_u32() % 3 == 0 {
+            c.eval();
+            c.distinct(&format!("restore/{}/{}/{}/{}", self.name, at, self.b.stage.name(), self.steps));
+            if let Err(e) = self.b.restore() {
+                c.violation(
+                    &format!("C20 restore-failed stage={}", self.b.stage.name()),
+                    json!({"error": e, "at": at, "trail": self.trail}),
+                );
+                return false;
+            }
+            self.restores += 1;
+            c.count(&format!("restores[{}]", self.b.stage.name()), 1);
+        }
+        true
+    }
+    fn differ(&self, c: &mut Ctx, what: &str, at: &str, detail: serde_json::Value) {
+        c.violation(
+            &format!("C20 restored-differs what={} stage={}", what, at),
+            json!({"detail": detail, "trail": self.trail}),
+        );
+    }
+    /// closing messages from copies of both tracks must agree (same randomness: byte-identical)
+    fn compare_close(&self, c: &mut Ctx, rng: &mut impl RngCore, at: &str) {
+        let seed = seed_of(rng);
+        let ca = self.a.stage.close_from_copy(&mut ScriptRng::new(seed));
+        let cb = self.b.stage.close_from_copy(&mut ScriptRng::new(seed));
+        match (ca, cb) {
+            (Ok(None), Ok(None)) => {}
+            (Ok(Some(x)), Ok(Some(y))) => {
+                c.eval();
+                let same_fields = x.channel_id().to_bytes() == y.channel_id().to_bytes()
+                    && x.customer_balance() == y.customer_balance()
+                    && x.merchant_balance() == y.merchant_balance()
+                    && x.revocation_lock().as_bytes() == y.revocation_lock().as_bytes();
+                if !same_fields {
+                    self.differ(c, "closing-message-fields", at, json!({}));
+                } else if enc(&x) != enc(&y) {
+                    self.differ(c, "closing-message-bytes", at, json!({}));
+                } else {
+                    c.count("closing_messages_compared", 1);
+                }
+            }
+            (x, y) => self.differ(c, "close-availability", at, json!({"a": format!("{:?}", x.map(|o| o.is_some())), "b": format!("{:?}", y.map(|o| o.is_some()))})),
+        }
+    }
+    /// feed the same reply to both tracks through `f`; outcomes must agree
+    fn both<T: PartialEq + std::fmt::Debug>(&mut self, c: &mut Ctx, at: &str, f: impl Fn(&mut Sess) -> Result<T, String>) -> Option<T> {
+        let ra = f(&mut self.a);
+        let rb = f(&mut self.b);
+        c.eval();
+        match (ra, rb) {
+            (Ok(x), Ok(y)) => {
+                if x != y {
+                    self.differ(c, "outcome", at, json!({"a": format!("{:?}", x), "b": format!("{:?}", y)}));
+                    None
+                } else {
+                    Some(x)
+                }
+            }
+            (x, y) => {
+                c.violation(
+                    &format!("C20 step-error stage={}", at),
+                    json!({"a": format!("{:?}", x.err()), "b": format!("{:?}", y.err()), "trail": self.trail}),
+                );
+                None
+            }
+        }
+    }
+}
+
+fn bad_reply(rng: &mut impl RngCore) -> Vec<u8> {
+    let mut b = rand_g1(rng).to_compressed().to_vec();
+    b.extend_from_slice(&rand_g1(rng).to_compressed());
+    b
+}
+
+fn run_twin(c: &mut Ctx, m: &'static Merchant, name: &str, cust0: u64, merch0: u64, steps: usize, restore_every: bool) {
+    let mut rng = c.rng(name);
+    let ctxb = name.as_bytes().to_vec();
+    let cid = new_channel_id(m, &mut rng, b"m", b"c");
+    // both tracks start from one request made with one RNG stream
+    let seed = seed_of(&mut rng);
+    let ra = Sess::request(m, &mut ScriptRng::new(seed), cid, cust0, merch0, &ctxb);
+    let rb = Sess::request(m, &mut ScriptRng::new(seed), cid, cust0, merch0, &ctxb);
+    let ((a, pa), (b, pb)) = match (ra, rb) {
+        (Ok(x), Ok(y)) => (x, y),
+        _ => return c.inconclusive("C20: request failed"),
+    };
+    if pa != pb {
+        return c.inconclusive("C20: identical RNG streams gave different establish proofs");
+    }
+    let mut t = Twin { a, b, restore_every, restores: 0, steps: 0, trail: vec![format!("open {} {}", cust0, merch0)], name: name.to_string() };
+    macro_rules! tryo {
+        ($e:expr) => {
+            match $e {
+                Some(x) => x,
+                None => return,
+            }
+        };
+    }
+    if !t.maybe_restore(c, &mut rng, "requested") {
+        return;
+    }
+    let sig = match t.a.m_initialize(&mut rng, cust0, merch0, &pa, &ctxb) {
+        Ok(Some(s)) => s,
+        _ => return c.inconclusive("C20: honest establish refused (C04's subject)"),
+    };
+    // a refused reply first, then restore, then the honest one
+    let bad = bad_reply(&mut rng);
+    if tryo!(t.both(c, "requested/bad-reply", |s| s.c_complete(&bad))) {
+        return c.inconclusive("C20: random signature accepted (C03's subject)");
+    }
+    t.trail.push("bad closing signature refused".into());
+    if !t.maybe_restore(c, &mut rng, "requested-after-refusal") {
+        return;
+    }
+    if !tryo!(t.both(c, "requested", |s| s.c_complete(&sig))) {
+        return c.violation("C20 honest-reply-refused stage=requested", json!({"trail": t.trail}));
+    }
+    t.compare_close(c, &mut rng, "inactive");
+    if !t.maybe_restore(c, &mut rng, "inactive") {
+        return;
+    }
+    let tok = match t.a.m_activate(&mut rng) {
+        Ok(x) => x,
+        Err(e) => return c.inconclusive(&e),
+    };
+    let bad = bad_reply(&mut rng);
+    if tryo!(t.both(c, "inactive/bad-reply", |s| s.c_activate(&bad))) {
+        return c.inconclusive("C20: random pay token accepted (C03's subject)");
+    }
+    if !t.maybe_restore(c, &mut rng, "inactive-after-refusal") {
+        return;
+    }
+    t.compare_close(c, &mut rng, "inactive-after-refusal");
+    if !tryo!(t.both(c, "inactive", |s| s.c_activate(&tok))) {
+        return c.violation("C20 honest-reply-refused stage=inactive", json!({"trail": t.trail}));
+    }
+    t.compare_close(c, &mut rng, "ready");
+    for step in 0..steps {
+        if !t.maybe_restore(c, &mut rng, "ready") {
+            return;
+        }
+        let (cust, merch) = t.a.ledger;
+        let cands = candidate_amounts(cust, merch, &mut rng);
+        let amt = cands[(rng.next_u32() as usize) % cands.len()];
+        let Ok(pa_) = amount(amt) else { continue };
+        t.trail.push(format!("pay {}", amt));
+        let seed = seed_of(&mut rng);
+        // start on both tracks with identical randomness
+        let ra = t.a.c_start(&mut ScriptRng::new(seed), pa_, &ctxb);
+        let rb = t.b.c_start(&mut ScriptRng::new(seed), pa_, &ctxb);
+        c.eval();
+        let started = match (ra, rb) {
+            (Ok(Ok(x)), Ok(Ok(y))) => {
+                if x != y {
+                    t.differ(c, "start-message-bytes", "ready", json!({"nonce_equal": x.0 == y.0, "proof_equal": x.1 == y.1, "amount": amt.to_string()}));
+                    return;
+                }
+                Some(x)
+            }
+            (Ok(Err(e1)), Ok(Err(e2))) => {
+                if format!("{:?}", e1) != format!("{:?}", e2) {
+                    t.differ(c, "start-error", "ready", json!({"a": format!("{:?}", e1), "b": format!("{:?}", e2)}));
+                    return;
+                }
+                if ledger_apply(cust, merch, amt).is_ok() {
+                    c.count("in_range_refused(C04)", 1);
+                }
+                None
+            }
+            (x, y) => {
+                t.differ(c, "start-outcome", "ready", json!({"a": format!("{:?}", x.map(|r| r.is_ok())), "b": format!("{:?}", y.map(|r| r.is_ok()))}));
+                return;
+            }
+        };
+        let Some((nonce, proof)) = started else {
+            t.compare_close(c, &mut rng, "ready-after-refused-start");
+            continue;
+        };
+        c.distinct(&format!("twin-pay/{}/{}/{}/{}", cust, merch, amt, step));
+        t.compare_close(c, &mut rng, "started");
+        if !t.maybe_restore(c, &mut rng, "started") {
+            return;
+        }
+        let sig = match t.a.m_allow(&mut rng, pa_, &nonce, &proof, &ctxb) {
+            Ok(Some(s)) => s,
+            _ => return c.inconclusive("C20: honest pay proof refused (C04's subject)"),
+        };
+        let bad = bad_reply(&mut rng);
+        if tryo!(t.both(c, "started/bad-reply", |s| s.c_lock(&bad))).is_some() {
+            return c.inconclusive("C20: random closing signature accepted (C03's subject)");
+        }
+        if !t.maybe_restore(c, &mut rng, "started-after-refusal") {
+            return;
+        }
+        t.compare_close(c, &mut rng, "started-after-refusal");
+        let lockmsg = tryo!(t.both(c, "started", |s| s.c_lock(&sig)));
+        let Some((pair, bf)) = lockmsg else {
+            return c.violation("C20 honest-reply-refused stage=started", json!({"trail": t.trail}));
+        };
+        t.compare_close(c, &mut rng, "locked");
+        if !t.maybe_restore(c, &mut rng, "locked") {
+            return;
+        }
+        let tok = match t.a.m_complete(&mut rng, &pair, &bf) {
+            Ok(Some(x)) => x,
+            _ => return c.inconclusive("C20: honest revocation refused (C05's subject)"),
+        };
+        let bad = bad_reply(&mut rng);
+        if tryo!(t.both(c, "locked/bad-reply", |s| s.c_unlock(&bad))) {
+            return c.inconclusive("C20: random pay token accepted (C03's subject)");
+        }
+        if !t.maybe_restore(c, &mut rng, "locked-after-refusal") {
+            return;
+        }
+        t.compare_close(c, &mut rng, "locked-after-refusal");
+        if !tryo!(t.both(c, "locked", |s| s.c_unlock(&tok))) {
+            return c.violation("C20 honest-reply-refused stage=locked", json!({"trail": t.trail}));
+        }
+        t.compare_close(c, &mut rng, "ready");
+        c.count("twin_payments_completed", 1);
+        // diagnostic only: the two tracks' state images
+        if t.a.stage.bytes() != t.b.stage.bytes() {
+            c.count("state_images_differ(diagnostic)", 1);
+        }
+    }
+    c.count("twin_histories", 1);
+    c.sample(json!({"initial": [cust0.to_string(), merch0.to_string()], "restore": if restore_every { "every step" } else { "random subset" },
+                     "restores": t.restores, "steps": t.steps, "trail": t.trail, "final_state_head": hex(&t.a.stage.bytes()[..32])}));
+    let _ = Stage::None;
+}
 
 pub fn run(c: &mut Ctx) {
-    c.inconclusive("C20: monitor not written yet");
+    c.note("rule", json!("lock-step twin execution of C04-style histories: track B is restored from bytes before every step (pass 1) or before a random third of the steps (pass 2), also immediately after refused bad replies; identical per-step randomness and identical merchant replies; compared: every emitted message byte-for-byte, every accept/refuse and error variant, closing messages from copies of both tracks. Distinct = distinct (stage, history position) restore points and distinct twin payments."));
+    let pairs: Vec<(u64, u64)> = vec![(10, 1000), (0, 7), (7, 0), (MAXB, 0), (0, MAXB), (1 << 62, 1 << 62), (MAXB - 1, 1), (1 << 32, 1 << 31)];
+    let steps = c.tier.pick(6usize, 16);
+    let nrand = c.tier.pick(24usize, 120);
+    let m = match fixtures::merchant(c.seed, "m0") {
+        Ok(m) => m,
+        Err(e) => return c.inconclusive(&e),
+    };
+    let mut all = pairs.clone();
+    let mut rng = c.rng("pairs");
+    for _ in 0..nrand {
+        all.push((shaped_u64(&mut rng) & MAXB, shaped_u64(&mut rng) & MAXB));
+    }
+    for (i, (cust, merch)) in all.into_iter().enumerate() {
+        for every in [true, false] {
+            let name = format!("twin{}/{}-{}/{}", i, cust, merch, if every { "every" } else { "random" });
+            c.case(&name, |c| {
+                if let Err(p) = guard(|| run_twin(c, m, &name, cust, merch, steps, every)) {
+                    c.violation(&format!("C20 panic loc={}", repo_rel(&p.location)), json!({"panic": p.message}));
+                }
+            });
+        }
+    }
 }
